@@ -371,7 +371,13 @@ func (p *Proxy) handleConnectRequest(ctx *Context, req *http.Request, session *S
 				return err
 			}
 			if tlsconn.ConnectionState().NegotiatedProtocol == "h2" {
-				return p.mitm.H2Config().Proxy(p.closing, tlsconn, req.URL)
+				if err := p.mitm.H2Config().Proxy(p.closing, tlsconn, req.URL); err != nil {
+					log.Errorf("martian: HTTP/2 session for %s ended: %v", req.Host, err)
+				}
+				// The HTTP/2 session owned the connection; however it ended, nothing
+				// more can be served on it (e.g. the upstream dial failed): close it
+				// rather than waiting for an HTTP/1 request on the raw connection.
+				return errClose
 			}
 
 			var nconn net.Conn
